@@ -429,6 +429,25 @@ def parse_pipeflow(fn):
             tokens.append("dispatch[bad_mode:raise|bidirectional:bidirectional|else:hydraulics?,heat_transfer?]")
         elif src == "extract_all_results(net, calculation_mode)":
             tokens.append("extract_all_results")
+        elif isinstance(st, ast.Try) and not st.orelse and not st.finalbody and len(st.handlers) == 1 and \
+                [_u(b) for b in st.body] == ["extract_all_results(net, calculation_mode)"]:
+            h = st.handlers[0]
+            if h.type is None or _u(h.type) not in ("Exception", "BaseException") or h.name is not None:
+                _fail(st, "handler around extract_all_results must be `except Exception:`")
+            acts = []
+            for b in h.body:
+                bs = _u(b)
+                if bs == "net.converged = False":
+                    acts.append("converged=False")
+                elif bs == "init_all_result_tables(net)":
+                    acts.append("init_all_result_tables")
+                elif bs == "raise":
+                    acts.append("raise")
+                elif _is_logger_call(b):
+                    continue
+                else:
+                    _fail(b, "statement of the extraction handler not recognised")
+            tokens.append("try[extract_all_results]except[%s]" % ";".join(acts))
         else:
             _fail(st, "statement of pipeflow not recognised")
     if sorted(seen_modes) != sorted(MODE_DEFS):
